@@ -157,16 +157,40 @@ def run (sh : Sh p) (w : World p) (ops : List (Op p)) : World p := ops.foldl (st
 /-- the code before the repair of `Clear` -/
 def runOld (sh : Sh p) (w : World p) (ops : List (Op p)) : World p := ops.foldl (stepWith clearOld sh) w
 
-/-- `HAProxyUpdate` as a whole (end-to-end runs): `writeConfig` is only reached when the dynamic
-updater did not report "old and new configurations match".  With backends only (no host, global,
-tcp or userlist change) it reports a match iff committed data exists (`globalOld != nil`: an update
-ran since the last `config.Clear`) and no added backend is left after `Shrink` — removed backends
-without a counterpart are not looked at (`backendUpdated`: `pair.cur != nil && ...`).  `Commit` is
-deferred, so it runs on this path too. -/
+/-- `HAProxyUpdate` as a whole (end-to-end runs): `writeConfig` is reached when
+`!updated || updater.cmdCnt > 0 || Backends().Changed()`.  With backends only (no host, global,
+tcp or userlist change) the dynamic updater reports `updated` iff committed data exists
+(`globalOld != nil`: an update ran since the last `config.Clear`) and no added backend is left
+after `Shrink` (every remaining add/del pair fails `checkBackendPair`; removed backends without a
+counterpart are not looked at); no socket command is ever sent (`cmdCnt = 0`).  So the write is
+skipped iff nothing at all is pending after `Shrink`.  `Commit` is deferred: it runs on every path. -/
 def updateGated (sh : Sh p) (committed : Bool) (w : World p) : World p :=
+  let s := shrink sh w.store
+  if committed && !(anyFin fun x => (s.add x).isSome) && !(anyFin fun x => (s.add x).isSome || (s.del x).isSome) then
+    { store := commit s, disk := w.disk }
+  else { store := commit s, disk := write sh s w.disk }
+
+/-- the gate before the repair (historical witness): `Backends().Changed()` was not consulted, a
+batch that only removed backends skipped `writeConfig` -/
+def updateGatedOld (sh : Sh p) (committed : Bool) (w : World p) : World p :=
   let s := shrink sh w.store
   if committed && !(anyFin fun x => (s.add x).isSome) then { store := commit s, disk := w.disk }
   else { store := commit s, disk := write sh s w.disk }
+
+/-- world + `config.hasCommittedData()` -/
+structure GWorld (p : Nat) where
+  w : World p := {}
+  committed : Bool := false
+
+/-- end-to-end step: `update` is the whole `HAProxyUpdate`, `clear` is `config.Clear()` (drops
+`globalOld`), `commit` is `config.Commit()` (sets it) -/
+def stepG (sh : Sh p) (g : GWorld p) : Op p → GWorld p
+  | .update => { w := updateGated sh g.committed g.w, committed := true }
+  | .clear => { w := step sh g.w .clear, committed := false }
+  | .commit => { w := step sh g.w .commit, committed := true }
+  | op => { g with w := step sh g.w op }
+
+def runG (sh : Sh p) (g : GWorld p) (ops : List (Op p)) : GWorld p := ops.foldl (stepG sh) g
 
 /-- what a file of shard `k` must hold: the current items of that shard -/
 def itemsIn (sh : Sh p) (s : Store p) (k : Nat) : Map p := fun x => if sh.shardOf x = k then s.items x else none
@@ -186,6 +210,10 @@ def okOp (s : Store p) : Op p → Bool
 def allOk (sh : Sh p) : World p → List (Op p) → Bool
   | _, [] => true
   | w, op :: ops => okOp w.store op && allOk sh (step sh w op) ops
+
+def allOkG (sh : Sh p) : GWorld p → List (Op p) → Bool
+  | _, [] => true
+  | g, op :: ops => okOp g.w.store op && allOkG sh (stepG sh g op) ops
 
 /-! ### observations (driver) and the Spec evaluated on implementation output -/
 
